@@ -597,7 +597,7 @@ impl Runner {
                     let acc_s = show_kvs(&accepted);
                     self.check(okc, || format!("C01 stream differs from accepted map: fe={} got {} want {}", fe, show_kvs(&got), acc_s));
                     self.check(keys.len() == got.len(), || "C01 key stream length".into());
-                    self.check(len == accepted.len(), || format!("C01 len() = {} but {} distinct keys", len, accepted.len()));
+                    self.check(len == accepted.len(), || format!("C01 C06 len() = {} but {} accepted distinct keys (a rejected or repeated call must be a no-op)", len, accepted.len()));
                     self.check(is_empty == accepted.is_empty(), || "C01 is_empty()".into());
                     self.expect = if ambiguous { None } else { Some(accepted) };
                 } else {
